@@ -68,17 +68,16 @@ Example join_template_example :
       [(1%positive, 2%positive, 27, 26); (1%positive, 3%positive, 28, 26); (2%positive, 3%positive, 28, 27)]).
 Proof. vm_compute. reflexivity. Qed.
 
-(* the guards of join_variances / join_keeps_inblock_cov hold with a fill value: joining a, b (one
-   block, covariance 22 <> 0) with d *)
+(* the guard of join_keeps_inblock_cov holds with a fill value: joining a, b (one block, covariance
+   22 <> 0) with d *)
 Example join_guards_nonvacuous :
-  nz 5 = false /\ (forall e, variance nat 0 r6 va = Some e -> nz e = false) /\
+  nz 5 = false /\
   cov nat 0 r6 va vb = Some 22 /\ cov nat 0 r6 vb va = Some 22 /\ nz 22 = false /\
   exists r' ps, join nat 0 nz nmk [va; vb; vd] 5 None r6 = Ok (r', ps) /\ cov nat 0 r' va vb = Some 22 /\
                 cov nat 0 r' va vd = Some 5 /\ cov nat 0 r' va vc = Some 0 /\ variance nat 0 r' va = Some 21.
 Proof.
   repeat split; try (vm_compute; reflexivity).
-  - intros e H. vm_compute in H. inversion H. reflexivity.
-  - eexists. eexists. repeat split; vm_compute; reflexivity.
+  eexists. eexists. repeat split; vm_compute; reflexivity.
 Qed.
 
 (* hypotheses of join_new_cov_is_fill: x and y in different distributions *)
@@ -93,9 +92,12 @@ Example join_errors_example :
 Proof. split; vm_compute; reflexivity. Qed.
 
 Example add_example :
-  NoDup (names (add_coll nat [Normal va L_IIV 0 1] [Normal vb L_RUV 0 2])) /\
-  add_dist nat [Normal va L_IIV 0 1] (Normal vb 9%positive 0 2) = Err ValueError.
-Proof. split; [vm_compute; repeat constructor; cbn; intuition discriminate | vm_compute; reflexivity]. Qed.
+  add_coll nat [Normal va L_IIV 0 1] [Normal vb L_RUV 0 2] = Ok [Normal va L_IIV 0 1; Normal vb L_RUV 0 2] /\
+  add_coll nat r6 [Normal vb L_RUV 0 2] = Err ValueError /\           (* a repeated name is refused *)
+  radd_dist nat r6 (Normal va L_IIV 0 1) = Err ValueError /\
+  add_dist nat [Normal va L_IIV 0 1] (Normal vb 9%positive 0 2) = Err ValueError /\   (* unknown level *)
+  wf nat [Normal vb L_RUV 0 2] = true.
+Proof. repeat split; vm_compute; reflexivity. Qed.
 
 (* call structure: a valid parameter set (the PSD oracle accepts every block) with a real joint block *)
 Example nearest_valid_id_nonvacuous :
@@ -179,21 +181,20 @@ Proof.
   split; [reflexivity|]. split; intros k Hk; destruct k as [|[|k]]; try lia; unfold fget, C2; cbn [nth]; lra.
 Qed.
 
-(* a Cholesky factor with non-negative sub-diagonal and a structural zero: guard of ucp_inverse *)
-Definition Lpos : list (list R) := [[2; 0; 0]; [1/2; 1; 0]; [0; 0; 3]].
+(* a Cholesky factor with a negative sub-diagonal entry and a structural zero: hypotheses of ucp_inverse *)
+Definition Lpos : list (list R) := [[2; 0; 0]; [-(1/2); 1; 0]; [0; 0; 3]].
 Definition Upos : list (list R) := [[/10; /10; 0]; [/10; /10; 0]; [0; 0; /10]].
 Example ucp_inverse_nonvacuous :
   length Upos = length Lpos /\
   (forall a b, (a < b)%nat -> (b < length Lpos)%nat -> fget R 0 Lpos a b = 0) /\
   (forall k, (k < length Lpos)%nat -> fget R 0 Upos k k = / 10) /\
-  (forall a b, (b < a)%nat -> (a < length Lpos)%nat ->
-     (fget R 0 Upos a b = / 10 /\ 0 <= fget R 0 Lpos a b) \/ fget R 0 Lpos a b = 0).
+  (forall a b, (b < a)%nat -> (a < length Lpos)%nat -> fget R 0 Upos a b = / 10 \/ fget R 0 Lpos a b = 0).
 Proof.
   split; [reflexivity|]. split; [|split].
   - intros a b Hab Hb. cbn in Hb. destruct b as [|[|[|b]]]; try lia; destruct a as [|[|a]]; try lia; reflexivity.
   - intros k Hk. cbn in Hk. destruct k as [|[|[|k]]]; try lia; reflexivity.
   - intros a b Hab Ha. cbn in Ha. destruct a as [|[|[|a]]]; try lia; destruct b as [|[|b]]; try lia;
-      unfold fget, Upos, Lpos; cbn [nth]; try (right; reflexivity); left; split; [reflexivity | lra].
+      unfold fget, Upos, Lpos; cbn [nth]; try (right; reflexivity); left; reflexivity.
 Qed.
 
 Example theta_ucp_nonvacuous : (0 < 1 /\ 1 < 10) /\ (-1000000 < 0 /\ 0 < 1000000).
